@@ -648,7 +648,7 @@ def make_cases(ctx):
             d[f] = not c.get(f)
             extra.append(d)
     cases += extra
-    n_random = (1200 if ctx.tier == 'quick' else 28000) * ctx.boost
+    n_random = (1200 if ctx.tier == 'quick' else 24000) * ctx.boost
     for k in range(n_random):
         cases.append(gen_case(ctx.sub_rng('case', getattr(ctx, 'seed_shift', 0), k)))
     if ctx.tier == 'thorough' or ctx.boost > 1:
